@@ -42,13 +42,16 @@ func mqGen(t *rapid.T) *sideCase {
 	c := &sideCase{Plugin: "memory-qos", Ann: map[string]string{}}
 	c.Config = rapid.SampledFrom([]string{"", "std", "std", "std", "nounified", "!classes: 5", "!{{{", "!unifiedannotations: [memory.high]\nclasses:\n- name: swap\n  swaplimitratio: 0.5", "!null", "!classes:\n- null"}).Draw(t, "config")
 	c.Ctr = rapid.SampledFrom(sideNames).Draw(t, "ctr")
-	c.Shape = rapid.IntRange(0, 7).Draw(t, "shape")
-	c.MemLimit = rapid.SampledFrom([]int64{0, 1 << 20, 1 << 30, -5}).Draw(t, "memlimit")
+	c.Shape = rapid.SampledFrom([]int{0, 0, 0, 0, 0, 1, 2, 3, 4, 5, 6, 7}).Draw(t, "shape")
+	c.MemLimit = rapid.SampledFrom([]int64{0, 1 << 20, 1 << 30, 1 << 30, -5}).Draw(t, "memlimit")
 	keys := []string{"class", "memory.high", "memory.swap.max", "bogus", "memory.low"}
 	n := rapid.IntRange(0, 5).Draw(t, "nann")
 	for i := 0; i < n; i++ {
 		key := rapid.SampledFrom(keys).Draw(t, "key")
 		val := rapid.SampledFrom(sideHostile).Draw(t, "val")
+		if key == "class" && rapid.IntRange(0, 3).Draw(t, "validClass") != 0 {
+			val = rapid.SampledFrom([]string{"swap", "swap", "noswap", "nosuchclass"}).Draw(t, "classVal")
+		}
 		switch rapid.IntRange(0, 2).Draw(t, "form") {
 		case 0:
 			c.Ann[key+mqSuffix] = val
